@@ -1082,3 +1082,301 @@ func closureEscapes(fn *ssa.Function) bool {
 	}
 	return false
 }
+
+// ---------------------------------------------------------------------------------------------
+// C16: non-interference of the per-function goroutines, by frames.
+// ---------------------------------------------------------------------------------------------
+
+// enumerateRaceSites: writes that could touch memory shared between goroutines.
+func enumerateRaceSites(L *Loaded, db *ContractDB) ([]FrameSite, map[*ssa.Function]bool, []*ssa.Function) {
+	var sites []FrameSite
+	add := func(fn *ssa.Function, in ssa.Instruction, what, desc string, o Own, why string, ok bool) {
+		sites = append(sites, FrameSite{fn, in, what, desc, o, why, ok, false})
+	}
+	entries := goroutineEntries(L)
+	reach := reachableFrom(L, db, entries)
+	for _, fn := range L.AllFns {
+		if !framePkgInScope(fn) {
+			continue
+		}
+		inGoroutine := reach[fn]
+		isInit := fn.Name() == "init" || strings.HasPrefix(fn.Name(), "init#") || fn.Synthetic == "package initializer"
+		c := newOwnCtx(L, db, fn)
+		for _, b := range fn.Blocks {
+			for _, in := range b.Instrs {
+				switch i := in.(type) {
+				case *ssa.Store:
+					// (A) package-level variables are written only during initialisation
+					if g := globalRoot(i.Addr); g != nil && !isInit {
+						add(fn, in, "global-store", g.Pkg.Pkg.Path()+"."+g.Name(), OwnNilaway, "store to a package-level variable outside init", false)
+					}
+					// (B) element stores into slices that this function does not own (code run by the goroutines)
+					if ia, ok := i.Addr.(*ssa.IndexAddr); ok && inGoroutine {
+						if _, isSl := types.Unalias(ia.X.Type()).Underlying().(*types.Slice); isSl && !sharedNamed(elemTypeOf(ia.X.Type())) {
+							o := c.own(ia.X)
+							add(fn, in, "store-elem", "[]"+typeStr(elemTypeOf(ia.X.Type())), o, c.why[ia.X], o == OwnOwned)
+						}
+					}
+				case *ssa.MapUpdate:
+					if g := globalRootVal(i.Map); g != nil && !isInit {
+						add(fn, in, "global-map-update", g.Pkg.Pkg.Path()+"."+g.Name(), OwnNilaway, "update of a package-level map outside init", false)
+					}
+				case *ssa.Call:
+					cc := i.Common()
+					if callee := cc.StaticCallee(); callee != nil {
+						key := calleeKey(callee)
+						if ai, ok := mutatorFuncs[key]; ok && inGoroutine && ai < len(cc.Args) && (strings.HasPrefix(key, "slices.") || strings.HasPrefix(key, "sort.")) {
+							arg := cc.Args[ai]
+							if !sharedNamed(elemTypeOf(arg.Type())) {
+								o := c.own(arg)
+								add(fn, in, "in-place-"+key, typeStr(arg.Type()), o, c.why[arg], o == OwnOwned)
+							}
+						}
+					}
+				}
+			}
+		}
+	}
+	return sites, reach, entries
+}
+
+// goroutineEntries: functions started as goroutines (go statements and sync.WaitGroup.Go).
+func goroutineEntries(L *Loaded) []*ssa.Function {
+	var out []*ssa.Function
+	for _, fn := range L.AllFns {
+		if !framePkgInScope(fn) {
+			continue
+		}
+		for _, b := range fn.Blocks {
+			for _, in := range b.Instrs {
+				switch i := in.(type) {
+				case *ssa.Go:
+					if f := resolveCallee(i.Common()); f != nil {
+						out = append(out, f)
+					} else if mc, ok := i.Common().Value.(*ssa.MakeClosure); ok {
+						out = append(out, mc.Fn.(*ssa.Function))
+					}
+				case *ssa.Call:
+					if c := i.Common().StaticCallee(); c != nil && calleeKey(c) == "(*sync.WaitGroup).Go" && len(i.Common().Args) == 2 {
+						if mc, ok := i.Common().Args[1].(*ssa.MakeClosure); ok {
+							out = append(out, mc.Fn.(*ssa.Function))
+						}
+					}
+				}
+			}
+		}
+	}
+	return out
+}
+
+// reachableFrom: functions reachable through static calls, closures and (conservatively) every module
+// implementation of an invoked interface method.
+func reachableFrom(L *Loaded, db *ContractDB, roots []*ssa.Function) map[*ssa.Function]bool {
+	x := newExec(L, db, newSorts())
+	reach := map[*ssa.Function]bool{}
+	work := append([]*ssa.Function(nil), roots...)
+	for len(work) > 0 {
+		f := work[len(work)-1]
+		work = work[:len(work)-1]
+		if o := f.Origin(); o != nil {
+			f = o
+		}
+		if reach[f] {
+			continue
+		}
+		reach[f] = true
+		for _, b := range f.Blocks {
+			for _, in := range b.Instrs {
+				switch i := in.(type) {
+				case *ssa.MakeClosure:
+					work = append(work, i.Fn.(*ssa.Function))
+				case ssa.CallInstruction:
+					cc := i.Common()
+					if c := resolveCallee(cc); c != nil {
+						work = append(work, c)
+					} else if cc.IsInvoke() {
+						for _, t := range x.implementers(cc.Value.Type()) {
+							if m := L.Prog.LookupMethod(t, cc.Method.Pkg(), cc.Method.Name()); m != nil {
+								work = append(work, m)
+							}
+						}
+					}
+				}
+			}
+		}
+	}
+	return reach
+}
+
+func globalRoot(v ssa.Value) *ssa.Global {
+	for {
+		switch a := v.(type) {
+		case *ssa.Global:
+			return a
+		case *ssa.FieldAddr:
+			v = a.X
+		case *ssa.IndexAddr:
+			if _, isSl := types.Unalias(a.X.Type()).Underlying().(*types.Slice); isSl {
+				return globalRootVal(a.X)
+			}
+			v = a.X
+		default:
+			return nil
+		}
+	}
+}
+
+// globalRootVal: the value was loaded (possibly through fields) from a package-level variable.
+func globalRootVal(v ssa.Value) *ssa.Global {
+	for k := 0; k < 6; k++ {
+		switch a := v.(type) {
+		case *ssa.UnOp:
+			if g := globalRoot(a.X); g != nil {
+				return g
+			}
+			return nil
+		case *ssa.Slice:
+			v = a.X
+		default:
+			return nil
+		}
+	}
+	return nil
+}
+
+// raceObligations is the C16 check.
+func raceObligations(L *Loaded, db *ContractDB, rep *Report) {
+	sites, reach, entries := enumerateRaceSites(L, db)
+	var obs []StructOb
+	seen := map[string]int{}
+	for _, s := range sites {
+		base := fmt.Sprintf("C16/%s/%s:%s", shortKey(normKey(s.Fn.RelString(nil))), s.What, s.Desc)
+		seen[base]++
+		obs = append(obs, StructOb{Name: fmt.Sprintf("%s#%d", base, seen[base]), OK: s.OK, Src: L.pos(s.In.Pos()), Detail: fmt.Sprintf("target is %s: %s", s.Own, s.Why)})
+	}
+	// ownership contracts (owns / returns-owned) are obligations of C16 as well: they are what makes the per-function
+	// data of one goroutine unreachable from another
+	for _, s := range enumerateFrameSites(L, db) {
+		if s.Obs {
+			continue
+		}
+		base := fmt.Sprintf("C16/%s/%s:%s", shortKey(normKey(s.Fn.RelString(nil))), s.What, s.Desc)
+		seen[base]++
+		p := ""
+		if s.In != nil {
+			p = L.pos(s.In.Pos())
+		}
+		obs = append(obs, StructOb{Name: fmt.Sprintf("%s#%d", base, seen[base]), OK: s.OK, Src: p, Detail: fmt.Sprintf("target is %s: %s", s.Own, s.Why)})
+	}
+	// goroutine bodies: one result per goroutine on every path, including the recovered-panic path
+	var names []string
+	for _, e := range entries {
+		names = append(names, shortKey(normKey(e.RelString(nil))))
+		for _, ob := range sendOnce(L, db, e) {
+			obs = append(obs, ob)
+		}
+	}
+	obs = append(obs, StructOb{Name: "C16/goroutine-entries-enumerated", OK: len(entries) >= 2, Detail: fmt.Sprintf("%d goroutine entries: %s; %d functions reachable", len(entries), strings.Join(names, ", "), len(reach))})
+	rep.addStruct(obs, "frames-noninterference")
+	rep.Assum["data-race freedom is argued by frames: no goroutine-reachable code writes memory it does not own; the Go memory model and races inside go/types lazy initialisation are outside reach"] = true
+	rep.Assum["ownership inference is flow-insensitive; goroutine reachability uses static calls, closures and all module implementations of invoked interface methods"] = true
+}
+
+// sendOnce: a goroutine that reports through a channel sends exactly one result on the normal path and one in the
+// deferred recover handler.
+func sendOnce(L *Loaded, db *ContractDB, entry *ssa.Function) []StructOb {
+	// the working function: the entry itself or the single module function it calls
+	work := entry
+	var sends []*ssa.Send
+	collect := func(f *ssa.Function) []*ssa.Send {
+		var out []*ssa.Send
+		for _, b := range f.Blocks {
+			for _, in := range b.Instrs {
+				if s, ok := in.(*ssa.Send); ok {
+					out = append(out, s)
+				}
+			}
+		}
+		return out
+	}
+	sends = collect(work)
+	if len(sends) == 0 {
+		for _, b := range entry.Blocks {
+			for _, in := range b.Instrs {
+				if c, ok := in.(*ssa.Call); ok {
+					if f := c.Common().StaticCallee(); f != nil && fnPkg(f) != nil && strings.HasPrefix(fnPkg(f).Path(), modPath) {
+						if s := collect(f); len(s) > 0 {
+							work, sends = f, s
+						}
+					}
+				}
+			}
+		}
+	}
+	name := "C16/goroutine/" + shortKey(normKey(entry.RelString(nil)))
+	if len(sends) == 0 {
+		return []StructOb{{Name: name + "/no-result-channel", OK: true, Detail: "the goroutine sends nothing (waiter)"}}
+	}
+	var obs []StructOb
+	// a single send instruction outside any loop: at most one result per goroutine; with the contract
+	// "sends-exactly-once" the send must also dominate every normal return
+	ok := len(sends) == 1
+	detail := fmt.Sprintf("%d send(s) in %s", len(sends), shortKey(normKey(work.RelString(nil))))
+	what := "sends-at-most-once-on-normal-paths"
+	if ok {
+		sb := sends[0].Block()
+		for _, b := range work.Blocks {
+			for _, sc := range b.Succs {
+				if sc.Dominates(b) && naturalLoop(sc)[sb] {
+					ok = false
+					detail += "; the send is inside a loop"
+				}
+			}
+		}
+	}
+	if contractGhost(db, work, "sends-exactly-once") {
+		what = "sends-exactly-once-on-normal-paths"
+		if ok {
+			for _, b := range work.Blocks {
+				if len(b.Instrs) > 0 {
+					if _, isRet := b.Instrs[len(b.Instrs)-1].(*ssa.Return); isRet && b != work.Recover && !sends[0].Block().Dominates(b) {
+						ok = false
+						detail += "; a return is not dominated by the send"
+					}
+				}
+			}
+		}
+	}
+	obs = append(obs, StructOb{Name: name + "/" + what, OK: ok, Detail: detail, Src: L.pos(sends[0].Pos())})
+	// deferred recover handler that sends
+	rec := false
+	for _, af := range work.AnonFuncs {
+		hasRecover, hasSend, deferred := false, false, false
+		for _, b := range af.Blocks {
+			for _, in := range b.Instrs {
+				if c, ok := in.(*ssa.Call); ok {
+					if bi, ok := c.Common().Value.(*ssa.Builtin); ok && bi.Name() == "recover" {
+						hasRecover = true
+					}
+				}
+				if _, ok := in.(*ssa.Send); ok {
+					hasSend = true
+				}
+			}
+		}
+		for _, b := range work.Blocks {
+			for _, in := range b.Instrs {
+				if d, ok := in.(*ssa.Defer); ok {
+					if mc, ok := d.Common().Value.(*ssa.MakeClosure); ok && mc.Fn == ssa.Value(af) && b == work.Blocks[0] {
+						deferred = true
+					}
+				}
+			}
+		}
+		if hasRecover && hasSend && deferred {
+			rec = true
+		}
+	}
+	obs = append(obs, StructOb{Name: name + "/recovered-panic-still-sends", OK: rec, Detail: "a closure deferred in the entry block recovers and sends an error result", Src: L.pos(work.Pos())})
+	return obs
+}
